@@ -16,6 +16,8 @@ const preludeBase = `(set-logic ALL)
 (declare-fun typeof (Val) Int)
 (declare-fun tmd (Int Int) Str)
 (declare-fun fsread (Str) Str)
+(declare-fun str_runes (Str) (Array Int Int))
+(declare-fun runes2str ((Array Int Int) Int Int) Str)
 (declare-fun rv_deepnan (Val) Bool)
 (declare-fun nil_val () Val)
 (assert (= (typeof nil_val) 0))
